@@ -251,4 +251,189 @@ theorem Ev.drop_cnt_pos {q : List Entry} (f : Nat) (h : 0 < cnt q) (hne : Ev.dro
     simp only [Bool.not_eq_true] at hn
     rw [Ev.cnt_erase_of_not_notified _ _ hn]; exact h
 
+
+/-! ### variants that tolerate one owner's fresh, task-less listener (inside a poll) -/
+
+/-- like `WakeOK`, except for entries owned by `f` (the future being polled right now) -/
+def WakeOKExcept (f : Nat) (q : List Entry) (w : List Nat) : Prop :=
+  ∀ e ∈ q, e.notified = true → e.owner ≠ f → e.owner ∈ w
+
+/-- like `AllTask`, except for entries owned by `f` -/
+def AllTaskExcept (f : Nat) (q : List Entry) : Prop := ∀ e ∈ q, e.owner ≠ f → e.task.isSome = true
+
+theorem wakeOKExcept_of_cons {f : Nat} {q : List Entry} {w : List Nat} (h : WakeOK q (f :: w)) :
+    WakeOKExcept f q w := by
+  intro e he hn hf
+  have := h e he hn
+  simp at this
+  rcases this with h1 | h1
+  · exact absurd h1 hf
+  · exact h1
+
+theorem WakeOK.toExcept {f : Nat} {q : List Entry} {w : List Nat} (h : WakeOK q w) :
+    WakeOKExcept f q w := fun e he hn _ => h e he hn
+
+theorem AllTask.toExcept {f : Nat} {q : List Entry} (h : AllTask q) : AllTaskExcept f q :=
+  fun e he _ => h e he
+
+theorem notify_wake_except (f : Nat) (add : Bool) (n : Nat) (q : List Entry) (w : List Nat)
+    (h : WakeOKExcept f q w) (ht : AllTaskExcept f q) :
+    WakeOKExcept f (notifyQ add n q) (notifyO n q ++ w) := by
+  induction q generalizing n with
+  | nil => intro x hx; cases n <;> simp [notifyQ] at hx
+  | cons e q ih =>
+    cases n with
+    | zero => simpa [notifyQ, notifyO] using h
+    | succ n =>
+      have hq : WakeOKExcept f q w := fun x hx => h x (List.mem_cons_of_mem _ hx)
+      have htq : AllTaskExcept f q := fun x hx => ht x (List.mem_cons_of_mem _ hx)
+      by_cases hn : e.notified = true
+      · simp only [notifyQ, notifyO, hn, if_true]
+        intro x hx hxn hxf
+        rcases List.mem_cons.mp hx with rfl | hx
+        · exact List.mem_append_right _ (h x List.mem_cons_self hn hxf)
+        · exact ih (n+1) hq htq x hx hxn hxf
+      · have hn' : e.notified = false := by simpa using hn
+        simp only [notifyQ, notifyO, hn', Bool.false_eq_true, if_false]
+        intro x hx hxn hxf
+        rcases List.mem_cons.mp hx with rfl | hx
+        · have := ht e List.mem_cons_self hxf
+          simp [this]
+        · have := ih n hq htq x hx hxn hxf
+          by_cases ht' : e.task.isSome = true
+          · simp only [ht', if_true, List.cons_append]
+            exact List.mem_cons_of_mem _ this
+          · simp only [ht', if_false]
+            exact this
+
+theorem notifyQ_allTaskExcept (f : Nat) (add : Bool) (n : Nat) (q : List Entry)
+    (h : AllTaskExcept f q) : AllTaskExcept f (notifyQ add n q) := by
+  fun_induction notifyQ add n q <;> simp_all [AllTaskExcept]
+
+theorem Ev.notify_wakeOKExcept (f : Nat) (add : Bool) (n : Nat) (q : List Entry) (w : List Nat)
+    (h : WakeOKExcept f q w) (ht : AllTaskExcept f q) :
+    WakeOKExcept f (Ev.notify add n q) (Ev.notifyOwners add n q ++ w) :=
+  notify_wake_except f _ _ _ _ h ht
+
+theorem Ev.notify_allTaskExcept (f : Nat) (add : Bool) (n : Nat) (q : List Entry)
+    (ht : AllTaskExcept f q) : AllTaskExcept f (Ev.notify add n q) :=
+  notifyQ_allTaskExcept f _ _ _ ht
+
+theorem Ev.listen_wakeOKExcept {f : Nat} {q : List Entry} {w : List Nat}
+    (h : WakeOKExcept f q w) : WakeOKExcept f (Ev.listen q f) w := by
+  intro e he hn hf
+  simp only [Ev.listen, List.mem_append, List.mem_singleton] at he
+  rcases he with he | he
+  · exact h e he hn hf
+  · subst he; simp at hn
+
+theorem Ev.listen_allTaskExcept {f : Nat} {q : List Entry} (h : AllTaskExcept f q) :
+    AllTaskExcept f (Ev.listen q f) := by
+  intro e he hf
+  simp only [Ev.listen, List.mem_append, List.mem_singleton] at he
+  rcases he with he | he
+  · exact h e he hf
+  · subst he; simp at hf
+
+theorem Ev.erase_wakeOK_of_except {f : Nat} {q : List Entry} {w : List Nat}
+    (h : WakeOKExcept f q w) : WakeOK (Ev.erase q f) w := by
+  intro e he hn
+  have hm := Ev.mem_erase.mp he
+  exact h e hm.1 hn hm.2
+
+theorem Ev.erase_allTask_of_except {f : Nat} {q : List Entry} (h : AllTaskExcept f q) :
+    AllTask (Ev.erase q f) := by
+  intro e he
+  have hm := Ev.mem_erase.mp he
+  exact h e hm.1 hm.2
+
+theorem Ev.erase_wakeOKExcept {f g : Nat} {q : List Entry} {w : List Nat}
+    (h : WakeOKExcept f q w) : WakeOKExcept f (Ev.erase q g) w :=
+  fun e he hn hf => h e (Ev.mem_erase.mp he).1 hn hf
+
+theorem Ev.erase_allTaskExcept {f g : Nat} {q : List Entry} (h : AllTaskExcept f q) :
+    AllTaskExcept f (Ev.erase q g) :=
+  fun e he hf => h e (Ev.mem_erase.mp he).1 hf
+
+/-- `setTask f` on a queue whose `f`-entries are not notified closes the exception -/
+theorem Ev.setTask_wakeOK_of_except {f t : Nat} {q : List Entry} {w : List Nat}
+    (h : WakeOKExcept f q w) (hn : Ev.isNotified q f = false) : WakeOK (Ev.setTask q f t) w := by
+  intro e he hne
+  simp only [Ev.setTask, List.mem_map] at he
+  obtain ⟨e0, he0, rfl⟩ := he
+  by_cases hf : e0.owner = f
+  · exfalso
+    have h1 := Ev.isNotified_false_iff.mp hn e0 he0 hf
+    simp [hf, h1] at hne
+  · have hn0 : e0.notified = true := by simpa [hf] using hne
+    have := h e0 he0 hn0 hf
+    simpa [hf] using this
+
+theorem Ev.setTask_allTask_of_except {f t : Nat} {q : List Entry} (h : AllTaskExcept f q) :
+    AllTask (Ev.setTask q f t) := by
+  intro e he
+  simp only [Ev.setTask, List.mem_map] at he
+  obtain ⟨e0, he0, rfl⟩ := he
+  by_cases hf : e0.owner = f
+  · simp [hf]
+  · simpa [hf] using h e0 he0 hf
+
+theorem Ev.isNotified_listen_of_erased (q : List Entry) (f : Nat) :
+    Ev.isNotified (Ev.listen (Ev.erase q f) f) f = false := by
+  simp only [Ev.isNotified, Ev.listen, Ev.erase, List.any_append, List.any_cons, List.any_nil,
+    Bool.or_false, Bool.or_eq_false_iff]
+  refine ⟨?_, by simp⟩
+  simp only [List.any_eq_false, List.mem_filter, Bool.and_eq_true, beq_iff_eq, not_and, and_imp]
+  intro x _ h1 h2
+  simp [h2] at h1
+
+theorem Ev.isNotified_listen_fresh (q : List Entry) (f : Nat) (h : Ev.has q f = false) :
+    Ev.isNotified (Ev.listen q f) f = false := by
+  have := Ev.has_false_iff.mp h
+  simp only [Ev.isNotified, Ev.listen, List.any_append, List.any_cons, List.any_nil,
+    Bool.or_false, Bool.or_eq_false_iff]
+  refine ⟨?_, by simp⟩
+  simp only [List.any_eq_false, Bool.and_eq_true, beq_iff_eq, not_and]
+  intro e he hf
+  exact absurd hf (this e he)
+
+theorem Ev.cnt_listen (q : List Entry) (f : Nat) : cnt (Ev.listen q f) = cnt q := by
+  simp [cnt, Ev.listen, List.countP_append]
+
+theorem Ev.listen_ne_nil (q : List Entry) (f : Nat) : Ev.listen q f ≠ [] := by
+  simp [Ev.listen]
+
+theorem Ev.setTask_ne_nil {q : List Entry} (f t : Nat) (h : q ≠ []) : Ev.setTask q f t ≠ [] := by
+  intro hc
+  have := Ev.setTask_length q f t
+  rw [hc] at this
+  exact h (List.length_eq_zero_iff.mp this.symm)
+
+theorem Ev.setTask_eq_nil_iff (q : List Entry) (f t : Nat) : Ev.setTask q f t = [] ↔ q = [] := by
+  simp [Ev.setTask]
+
+theorem Ev.has_erase (q : List Entry) (f g : Nat) :
+    Ev.has (Ev.erase q f) g = (Ev.has q g && g != f) := by
+  by_cases h : g = f
+  · subst h; simp [Ev.has_erase_self]
+  · rw [Ev.has_erase_ne q h]; simp [h]
+
+theorem Ev.has_drop (q : List Entry) (f g : Nat) :
+    Ev.has (Ev.drop q f) g = (Ev.has q g && g != f) := by
+  by_cases h : g = f
+  · subst h; simp [Ev.drop_has_self]
+  · rw [Ev.drop_has_ne q h]; simp [h]
+
+theorem Ev.setTask_task {q : List Entry} {f t : Nat} {e : Entry}
+    (he : e ∈ Ev.setTask q f t) (ho : e.owner = f) : e.task = some t := by
+  simp only [Ev.setTask, List.mem_map] at he
+  obtain ⟨e0, _, rfl⟩ := he
+  by_cases h0 : e0.owner = f
+  · simp [h0]
+  · simp [h0] at ho
+
+theorem Ev.has_ne_nil {q : List Entry} {f : Nat} (h : Ev.has q f = true) : q ≠ [] := by
+  obtain ⟨e, he, _⟩ := Ev.has_iff.mp h
+  exact List.ne_nil_of_mem he
+
 end ALock
